@@ -173,6 +173,32 @@ theorem single_canary (br : BR) (op : Op) (c : Cfg) (w : World) (exp : Exp)
     unfold matchCount at this hmc
     omega
 
+/-- **C06** — the creation expectation guards `create`: while an expectation is pending and has not timed
+    out, no call creates anything; and whenever a call creates a Deployment the expectation is pending
+    afterwards (so the next reconcile waits for the informer instead of creating a second canary). -/
+theorem expectation_guards_create (br : BR) (op : Op) (c : Cfg) (w : World) (exp : Exp) :
+    expectationGuardsCreate c w exp (call br op c w exp) = true := by
+  have hlen : ((call br op c w exp).w.deps.length ≤ w.deps.length) ∨
+      (¬ (exp = .pending ∧ c.timedOut = false) ∧ (call br op c w exp).exp = .pending) := by
+    cases op
+    case init =>
+      rcases planeInitialize_len c br w exp with h | h
+      · left; exact Nat.le_of_eq h
+      · right; exact h
+    all_goals
+      left
+      obtain ⟨id, f, ids, hf, _, _, hworld⟩ := call_shape br _ c w exp
+      rcases hworld with h | ⟨hop, _⟩
+      · rw [h, effW_deps]
+        exact List.length_filterMap_le _ _
+      · cases hop
+  unfold expectationGuardsCreate
+  rcases hlen with h | ⟨h1, h2⟩
+  · have h' : ¬ (call br op c w exp).w.deps.length > w.deps.length := by omega
+    simp [h, h']
+  · simp only [h1, if_false, h2, Bool.true_and]
+    split <;> simp
+
 /-! ## C05 — `Finalize` releases the stable Deployment -/
 
 /-- **C05 `finalize_releases_stable`** — after a successful `Finalize` the stable Deployment, if it
